@@ -785,10 +785,65 @@ fn wf_request_reply(rng: &mut Rng, dir: &PayloadDir, block: u32) -> Reply {
     Reply { variant: "RequestForData".into(), bytes, item_debug: dbg, answer: WfCodec::data_block(id, offset, slice_of(file, offset, block)) }
 }
 
+/// An upload directory with few, small files (firmware and application files mixed) for complete uploads.
+fn upload_dir(tag: &str, rng: &mut Rng) -> (PayloadDir, WriteFileParams, BTreeMap<u8, u32>) {
+    let mut files = BTreeMap::new();
+    let n = 1 + rng.below(3) as usize;
+    while files.len() < n {
+        let (_, id) = if rng.chance(1, 2) { RECOGNISED[rng.below(5) as usize] } else { *rng.pick(&RECOGNISED) };
+        let len = *rng.pick(&[0usize, 1, 6, 7, 8, 33, 64, 65]);
+        files.entry(id).or_insert_with(|| rng.bytes(len));
+    }
+    let dir = PayloadDir::create(tag, &files, &[]);
+    let sizes = files.iter().map(|(k, v)| (*k, v.len() as u32)).collect();
+    let params = WriteFileParams { dir: dir.dir.clone(), password: rng.below(1_000_000) as usize, block: *rng.pick(&[7u32, 16, 64, 1024]) };
+    (dir, params, sizes)
+}
+
+/// What a faithful terminal does: it fetches every announced file completely, block by block (files one after the
+/// other or interleaved; optionally probing once more at the end of a file, which is answered with an empty block).
+fn wf_full_upload(rng: &mut Rng, dir: &PayloadDir, block: u32) -> Vec<Reply> {
+    let mut cursors: Vec<(u8, u32)> = dir.files.keys().map(|k| (*k, 0u32)).collect();
+    rng.shuffle(&mut cursors);
+    let interleave = rng.chance(1, 3);
+    let probe = rng.chance(1, 3);
+    let mut out = vec![];
+    let mut done: Vec<bool> = vec![false; cursors.len()];
+    let mut cur = 0usize;
+    while done.iter().any(|d| !d) {
+        if done[cur] {
+            cur = (cur + 1) % cursors.len();
+            continue;
+        }
+        let (id, off) = cursors[cur];
+        let file = &dir.files[&id];
+        let flen = file.len() as u32;
+        if off >= flen && !(probe && off == flen) {
+            done[cur] = true;
+            continue;
+        }
+        let bytes = WfCodec::request(Some(id), Some(off), true, true);
+        let dbg = item_debug("RequestForData", "feig::packets::RequestForData", &bytes, &format!("RequestForData {{ tlv: Some(WriteData {{ file: Some(File {{ file_id: Some({id}), file_offset: Some({off}), file_size: None, payload: None }}) }}) }}"));
+        out.push(Reply { variant: "RequestForData".into(), bytes, item_debug: dbg, answer: WfCodec::data_block(id, off, slice_of(file, off, block)) });
+        if off >= flen {
+            done[cur] = true;
+        } else {
+            cursors[cur].1 = (off + block).min(flen);
+            if cursors[cur].1 >= flen && !probe {
+                done[cur] = true;
+            }
+        }
+        if interleave {
+            cur = (cur + 1) % cursors.len();
+        }
+    }
+    out
+}
+
 pub fn run_c05(ctx: &Ctx) -> i32 {
     let mut report = ctx.report("C05", "exploration");
     let depth = ctx.by(5usize, 7usize);
-    report.rule = format!("18 streams (17 Sequence impls + feig WriteFile) x every reply script of the form non-final^d final with d < {depth} over the stream's reply alphabet (single-reply streams: every variant), each letter instantiated with canonical values of the variant's type (several per letter, reference-encoded), x junk behind the final packet {{none, a valid packet, random bytes}} x chunking {{whole, byte-wise with a Pending wake-up between chunks}} x partial writes; plus random scripts to depth 40. The terminal releases reply i+1 only after reply i was answered (gate). Oracle: the abstract event log must equal [W(command), Read(ack+r1), W(answer1), Yield(r1), Read(r2), W(answer2), Yield(r2) ... End] and the stream cursor must sit exactly behind the final packet. Non-trivial = script with at least one reply; distinct by hash of (stream, script bytes, junk, chunking).");
+    report.rule = format!("18 streams (17 Sequence impls + feig WriteFile) x every reply script of the form non-final^d final with d < {depth} over the stream's reply alphabet (single-reply streams: every variant), each letter instantiated with canonical values of the variant's type (several per letter, reference-encoded), x junk behind the final packet {{none, a valid packet, random bytes}} x chunking {{whole, byte-wise with a Pending wake-up between chunks}} x partial writes; plus random scripts to depth 40; for WriteFile additionally complete uploads (every announced byte of 1-3 small firmware/application files fetched block by block, sequentially or interleaved, optionally probing the end of file) followed by the completion. The terminal releases reply i+1 only after reply i was answered (gate). Oracle: the abstract event log must equal [W(command), Read(ack+r1), W(answer1), Yield(r1), Read(r2), W(answer2), Yield(r2) ... End] and the stream cursor must sit exactly behind the final packet. Non-trivial = script with at least one reply; distinct by hash of (stream, script bytes, junk, chunking).");
     report.exhaustive = Some(true);
     report.assumptions = vec!["reply sets and final packets per stream: DESIGN Appendix B (refcodec::tables), written from the specification".into(), "commands are obtained by decoding reference encodings (C03 covers that bridge)".into()];
     let schema = refcodec::zvt_schema();
@@ -796,6 +851,7 @@ pub fn run_c05(ctx: &Ctx) -> i32 {
     let threads = ctx.threads;
     let seed = ctx.seed;
     let n_random = ctx.by(60usize, 3000usize);
+    let n_uploads = ctx.by(120usize, 4000usize);
     sharded(&mut report, threads, |shard, r| {
         let mut rng = Rng::derive(seed, 0xC05 + shard as u64);
         let mut work = 0usize;
@@ -818,19 +874,34 @@ pub fn run_c05(ctx: &Ctx) -> i32 {
                 scripts.push(w);
             }
             r.count("scripts", 0);
-            for script in scripts {
+            // WriteFile: complete uploads (every announced byte fetched, then the completion) next to the free scripts
+            let n_scripts = scripts.len();
+            if is_wf {
+                for _ in 0..n_uploads {
+                    scripts.push(vec!["CompletionData"]);
+                }
+            }
+            for (si, script) in scripts.into_iter().enumerate() {
                 work += 1;
                 if work % threads != shard {
                     continue;
                 }
-                let wf_ctx = if is_wf { Some(small_dir(&format!("c05-{shard}"), &mut rng)) } else { None };
-                let replies: Vec<Reply> = script
+                let upload = is_wf && si >= n_scripts;
+                let wf_ctx = if upload { Some(upload_dir(&format!("c05-{shard}"), &mut rng)) } else if is_wf { Some(small_dir(&format!("c05-{shard}"), &mut rng)) } else { None };
+                let mut replies: Vec<Reply> = script
                     .iter()
                     .map(|v| match (&wf_ctx, *v) {
                         (Some((dir, params, _)), "RequestForData") => wf_request_reply(&mut rng, dir, params.block),
                         _ => make_reply(sd, &pools, &mut rng, v),
                     })
                     .collect();
+                if upload {
+                    let (dir, params, _) = wf_ctx.as_ref().unwrap();
+                    let mut full = wf_full_upload(&mut rng, dir, params.block);
+                    full.append(&mut replies);
+                    replies = full;
+                    r.count("complete_uploads", 1);
+                }
                 let (cmd_bytes, cmd_check) = match &wf_ctx {
                     Some((_, params, sizes)) => {
                         let b = WfCodec::announce(params.password as u128, sizes);
@@ -937,13 +1008,14 @@ fn malformed(schema: &Schema, pools: &Pools, rng: &mut Rng, key: &str) -> Option
 pub fn run_c06(ctx: &Ctx) -> i32 {
     let mut report = ctx.report("C06", "fault_enumeration");
     let depth = ctx.by(4usize, 6usize);
-    report.rule = format!("18 streams x every valid prefix of non-final replies of length <= {depth} x fault kinds {{NACK 84xx in place of a packet (all 256 codes at the acknowledgement position), the same followed by the regular script (a terminal that did not notice), control field outside the reply set, malformed body for a control field inside the set (rejected by the reference decoder as incomplete/duplicate/missing), packet truncated at every offset followed by end of stream, clean end of stream at the packet boundary}} at every position (the acknowledgement position included), chunking whole / byte-wise. Oracle over the event log: the valid prefix is processed exactly as in C05; after the first faulty byte was delivered there is no write at all, exactly one Err item, then End (no parking). Non-trivial = every fault scenario; distinct by hash of (stream, prefix bytes, fault bytes, position, chunking).");
+    report.rule = format!("18 streams x every valid prefix of non-final replies of length <= {depth} x fault kinds {{NACK 84xx in place of a packet (all 256 codes at the acknowledgement position), the same followed by the regular script (a terminal that did not notice), control field outside the reply set, malformed body for a control field inside the set (rejected by the reference decoder as incomplete/duplicate/missing), packet truncated at every offset followed by end of stream, clean end of stream at the packet boundary}} at every position (the acknowledgement position included), chunking whole / byte-wise; for WriteFile additionally every fault kind right behind (or inside) a complete upload of small firmware/application files. Oracle over the event log: the valid prefix is processed exactly as in C05; after the first faulty byte was delivered there is no write at all, exactly one Err item, then End (no parking). Non-trivial = every fault scenario; distinct by hash of (stream, prefix bytes, fault bytes, position, chunking).");
     report.exhaustive = Some(true);
     report.assumptions = vec!["malformed bodies are restricted to those whose rejection follows from C02/C13 (top-level duplicate tag, value cut short, missing positional field)".into()];
     let schema = refcodec::zvt_schema();
     let pools = Pools::build(&schema, ctx.seed, 6);
     let threads = ctx.threads;
     let seed = ctx.seed;
+    let n_uploads = ctx.by(80usize, 3000usize);
     sharded(&mut report, threads, |shard, r| {
         let mut rng = Rng::derive(seed, 0xC06 + shard as u64);
         let mut work = 0usize;
@@ -951,19 +1023,40 @@ pub fn run_c06(ctx: &Ctx) -> i32 {
             let is_wf = sd.name == "feig::WriteFile";
             let e = reply_enum(sd.replies);
             let in_set: Vec<(u8, u8)> = e.variants.iter().filter_map(|v| schema.get(v.1).cf).collect();
-            for prefix in prefixes_up_to(sd, depth) {
+            let mut prefixes = prefixes_up_to(sd, depth);
+            // WriteFile: faults inside and right behind a complete upload (every announced byte fetched) as well
+            let n_prefixes = prefixes.len();
+            if is_wf {
+                for _ in 0..n_uploads {
+                    prefixes.push(vec![]);
+                }
+            }
+            for (pi, prefix) in prefixes.into_iter().enumerate() {
                 work += 1;
                 if work % threads != shard {
                     continue;
                 }
-                let wf_ctx = if is_wf { Some(small_dir(&format!("c06-{shard}"), &mut rng)) } else { None };
-                let replies: Vec<Reply> = prefix
+                let upload = is_wf && pi >= n_prefixes;
+                let wf_ctx = if upload { Some(upload_dir(&format!("c06-{shard}"), &mut rng)) } else if is_wf { Some(small_dir(&format!("c06-{shard}"), &mut rng)) } else { None };
+                let mut replies: Vec<Reply> = prefix
                     .iter()
                     .map(|v| match (&wf_ctx, *v) {
                         (Some((dir, params, _)), "RequestForData") => wf_request_reply(&mut rng, dir, params.block),
                         _ => make_reply(sd, &pools, &mut rng, v),
                     })
                     .collect();
+                if upload {
+                    let (dir, params, _) = wf_ctx.as_ref().unwrap();
+                    replies = wf_full_upload(&mut rng, dir, params.block);
+                    // the fault comes behind the complete upload, or (sometimes) somewhere inside it
+                    if rng.chance(1, 3) && !replies.is_empty() {
+                        let keep = rng.below(replies.len() as u64) as usize;
+                        replies.truncate(keep);
+                    } else {
+                        r.count("faults_behind_complete_upload", 1);
+                    }
+                }
+                let prefix_len = replies.len();
                 let (cmd_bytes, mk_check): (Vec<u8>, Box<dyn Fn() -> CmdCheck>) = match &wf_ctx {
                     Some((_, params, sizes)) => {
                         let b = WfCodec::announce(params.password as u128, sizes);
@@ -980,7 +1073,7 @@ pub fn run_c06(ctx: &Ctx) -> i32 {
                 let next_variant = *rng.pick(&e.variants.iter().map(|v| v.0).collect::<Vec<_>>());
                 let next = make_reply(sd, &pools, &mut rng, next_variant);
                 let mut faults: Vec<Fault> = vec![];
-                let positions: Vec<bool> = if prefix.is_empty() { vec![true, false] } else { vec![false] };
+                let positions: Vec<bool> = if prefix_len == 0 { vec![true, false] } else { vec![false] };
                 for at_ack in positions {
                     let whole: Vec<u8> = if at_ack { ACK.to_vec() } else { next.bytes.clone() };
                     faults.push(Fault { kind: "nack", at_ack, bytes: vec![0x84, rng.byte(), 0x00], eof: false, followed_by: vec![] });
@@ -1000,7 +1093,7 @@ pub fn run_c06(ctx: &Ctx) -> i32 {
                     faults.push(Fault { kind: "nack-then-regular-script", at_ack, bytes: vec![0x84, rng.byte(), 0x00], eof: false, followed_by: carry_on.clone() });
                     faults.push(Fault { kind: "foreign-then-regular-script", at_ack, bytes: pools.pick(&mut rng, foreign_key).0.clone(), eof: false, followed_by: carry_on.clone() });
                     // every negative-acknowledgement code 84 xx at the acknowledgement position (and sampled elsewhere)
-                    if at_ack && prefix.is_empty() {
+                    if at_ack && prefix_len == 0 && !upload {
                         for code in 0..=255u8 {
                             faults.push(Fault { kind: "nack-code-sweep", at_ack, bytes: vec![0x84, code, 0x00], eof: false, followed_by: if code % 2 == 0 { vec![] } else { carry_on.clone() } });
                         }
@@ -1038,7 +1131,7 @@ pub fn run_c06(ctx: &Ctx) -> i32 {
                         r.case(h, true);
                         r.note("streams_seen", sd.name);
                         r.count(&format!("faults.{}", f.kind), 1);
-                        r.note("fault_positions_seen", &format!("{}:{}", f.kind, if f.at_ack { "ack".to_string() } else { prefix.len().to_string() }));
+                        r.note("fault_positions_seen", &format!("{}:{}", f.kind, if f.at_ack { "ack".to_string() } else { prefix_len.min(9).to_string() }));
                         ex.check_c06(r, &schema, "C06");
                     }
                 }
